@@ -146,8 +146,8 @@ def run(ctx):
     ctx.log("correspondence: %d sequential programs (%d ops), %d mismatches, %d programs mutate a shared input"
             % (len(lines), nops, len(mism), effective))
     # 4 search: concurrent rounds on the real library
-    nr = ctx.n(70, 2600)
-    nk = ctx.n(9, 60)
+    nr = ctx.n(110, 2000)
+    nk = ctx.n(12, 60)
     workers = max(2, min(8, common.NCPU // 2))
     cmd = [exe, "search", "-repo", common.REPO, "-seed", str(ctx.seed), "-n", str(nr), "-known", str(nk), "-workers", str(workers)]
     if not race_ok:
@@ -177,8 +177,13 @@ def run(ctx):
     rmism = [l for l in rres if not l.startswith("OK ")]
     mism += rmism
     unknown = 0
+    off_txt = ""
+    if offenders:
+        off_txt = " [source facts: %s %s in %s at %s]" % (offenders[0]["variable"], offenders[0]["use"],
+                                                        offenders[0]["function"], offenders[0]["at"])
     for f in fails:
-        if ctx.failing_input(f[1], f[2], f[3], f[4], extra={"replay_cmd": "./check C20 --replay <this file>"}):
+        if ctx.failing_input(f[1], f[2], f[3], f[4][:220] + off_txt,
+                             extra={"replay_cmd": "./check C20 --replay <this file>", "report": f[4], "offending_source_facts": offenders[:20]}):
             unknown += 1
     ctx.log("search: %d rounds, %d goroutine programs, %d race reports, %d FAIL lines (%d outside the recorded finding), "
             "recorded scenario reproduced in %d/%d rounds"
@@ -221,7 +226,7 @@ def run(ctx):
         ctx.log("NOTE: the recorded finding (in-place op on SliceReader-decoded shared input) was not reproduced in this run")
     ctx.cov["rule"] = ("corr: %d generated sequential op programs (decode via Reader / SliceReader of 15 shared inputs or of own buffers, Info, "
                        "Encode, EncodeSW, GetFullSamples, InitProtect+EncryptFragment cenc/cbcs, DecryptInit+DecryptSegment, NAL conversions), "
-                       "after every op: aliasing of the target object by pointer range over every reachable []byte, SHA-256 of every shared input; "
+                       "after every op: aliasing of the target object by pointer range over every reachable []byte, byte comparison of every shared input with its pristine copy; "
                        "search: %d independent rounds of 2-16 goroutines (random start skew, Gosched injection) + %d rounds of the recorded "
                        "scenario, oracles: race detector (%s), per-op and final digests vs the sequential run on private copies, input hashes; "
                        "distinct = distinct program texts" % (n, nr, nk, "on" if race_ok else "NOT AVAILABLE"))
